@@ -37,3 +37,10 @@ Theorem pmax_generated (l : list ph) : pmax l = gen_pmax l.
 Proof. reflexivity. Qed.
 Theorem ptp_generated (l : list ph) : ptp l = gen_ptp l.
 Proof. reflexivity. Qed.
+
+(* the decimal I/O methods the character-exact model of Model/DecStr.v transcribes are the ones in phase.py now (whole-function pins by
+   syntax-tree hash, re-read on every run) *)
+Theorem string_methods_generated :
+  gen_str_parse_string_as_modelled = true /\ gen_str_repr_as_modelled = true /\ gen_str_str_as_modelled = true /\
+  gen_str_format_as_modelled = true /\ gen_str_to_string_as_modelled = true /\ gen_str_from_string_as_modelled = true.
+Proof. repeat split; reflexivity. Qed.
